@@ -20,7 +20,7 @@ ASSUMPTIONS = [
     "PoolList<T> only, with an element class that counts constructions / destructions in ghost state (the class is named `T` so that goto-cc "
     "resolves the pseudo-destructor calls `->~T()`); Array, List, HashMap, HashSet, PoolMap, Map, MultiMap: NOT decided",
     "step contracts over a symbolic neighbourhood (append(): exactly one construction, in place, at the returned address; every remove flavour: exactly one "
-    "destruction at the element's address; swap: none); PoolList::clear and ~PoolList are not covered; append(a, ...) overloads are member templates goto-cc cannot instantiate",
+    "destruction at the element's address; swap: none); PoolList::clear is a bounded stand-in (<= 2 elements: each destroyed once, in place); ~PoolList is not covered; append(a, ...) overloads are member templates goto-cc cannot instantiate",
     "Array: the bounded units found the append(a[j]) use-after-free on the unrepaired tree and were discharged for append / copy / assignment there; on the repaired tree every unit "
     "exhausts 44 GB (solver ERROR) -- parked, enable with NV_ARRAY=1",
 ]
